@@ -26,6 +26,41 @@ namespace Retry
 @[simp] theorem init_history (p : Retry) : (init p).history = p.history := by unfold init; dsimp only; split <;> rfl
 
 
+theorem _root_.U3.Retry.Count.dec_ne_disabled (c : Count) : c.dec ≠ .disabled := by
+  cases c <;> simp [Count.dec]
+
+/-- `__init__` rewrites `redirect` only when it is `False` or `total` is `False`; the budget of
+`False` and of the `0` that replaces it are the same -/
+theorem init_redirect_budget (p : Retry) (h : p.total ≠ .disabled) :
+    (init p).redirect.budget = p.redirect.budget := by
+  unfold init
+  dsimp only
+  split
+  · rename_i hc
+    rcases hc with hc | hc
+    · simp [hc, Count.budget]
+    · exact absurd hc h
+  · rfl
+
+theorem init_redirect_eq (p : Retry) (h : p.total ≠ .disabled) (h' : p.redirect ≠ .disabled) :
+    (init p).redirect = p.redirect := by
+  unfold init
+  dsimp only
+  split
+  · rename_i hc
+    rcases hc with hc | hc
+    · exact absurd hc h'
+    · exact absurd hc h
+  · rfl
+
+/-- `raise_on_redirect` is never switched on -/
+theorem init_raiseOnRedirect (p : Retry) (h : (init p).raiseOnRedirect = true) : p.raiseOnRedirect = true := by
+  unfold init at h
+  dsimp only at h
+  split at h
+  · simp at h
+  · exact h
+
 /-- the fields no retry operation touches -/
 structure SameConfig (a b : Retry) : Prop where
   allowedMethods : b.allowedMethods = a.allowedMethods
@@ -106,6 +141,22 @@ theorem nonneg_of_not_exhausted {r : Retry} (h : r.isExhausted = false) {n : Int
 
 /-! ### `increment` -/
 
+theorem new_redirect_dec (r : Retry) (t c rd rdr s o : Count) (h : List Hist) :
+    (r.new t.dec c rd rdr.dec s o h).redirect = rdr.dec :=
+  init_redirect_eq _ (Count.dec_ne_disabled t) (Count.dec_ne_disabled rdr)
+
+theorem new_redirect_budget (r : Retry) (t c rd rdr s o : Count) (h : List Hist) :
+    (r.new t.dec c rd rdr s o h).redirect.budget = rdr.budget :=
+  init_redirect_budget _ (Count.dec_ne_disabled t)
+
+theorem new_raiseOnRedirect (r : Retry) (t c rd rdr s o : Count) (h : List Hist)
+    (hr : (r.new t c rd rdr s o h).raiseOnRedirect = true) : r.raiseOnRedirect = true := by
+  unfold new init at hr
+  dsimp only at hr
+  split at hr
+  · simp at hr
+  · exact hr
+
 theorem new_history (r : Retry) (t c rd rdr s o : Count) (h : List Hist) :
     (r.new t c rd rdr s o h).history = h := by simp [new]
 
@@ -130,9 +181,10 @@ theorem finish_error {r : Retry} {t c rd rdr s o : Count} {h : Hist} {reason : C
 
 end Retry
 
-/-- the per-category budgets of the property (`redirect` belongs to C05) -/
+/-- the per-category budgets of the property (`redirect`: C05's budget, charged by the pool-level
+redirect branch and by a status retry of a reply that carries a redirect location) -/
 inductive Cat where
-  | connect | read | status | other
+  | connect | read | status | other | redirect
   deriving DecidableEq, Repr
 
 def Retry.counter (r : Retry) : Cat → Count
@@ -140,6 +192,7 @@ def Retry.counter (r : Retry) : Cat → Count
   | .read => r.read
   | .status => r.status
   | .other => r.other
+  | .redirect => r.redirect
 
 /-- the branch of `increment` an error takes -/
 def errCat (e : Err) : Cat :=
@@ -149,7 +202,8 @@ def errCat (e : Err) : Cat :=
 def Event.cat : Event → Option Cat
   | .error e => some (errCat e)
   | .status st => if st != 0 then some .status else none
-  | _ => none
+  | .redirect _ => some .redirect
+  | .nothing => none
 
 namespace Retry
 
@@ -160,7 +214,8 @@ theorem counter_mem (r : Retry) (c : Cat) : r.counter c ∈ r.counters := by
 theorem increment_ok {r : Retry} {m : Option Str} {ev : Event} {r' : Retry}
     (h : r.increment m ev = .ok r') :
     r'.total = r.total.dec ∧ r'.isExhausted = false ∧ SameConfig r r' ∧
-    (∀ c, r'.counter c = if ev.cat = some c then (r.counter c).dec else r.counter c) ∧
+    (∀ c, (ev.cat = some c → r'.counter c = (r.counter c).dec) ∧
+          (ev.cat ≠ some c → (r'.counter c).budget = (r.counter c).budget)) ∧
     (∃ e, r'.history = r.history ++ [e]) ∧
     (∀ e, ev = .error e → r.total ≠ .disabled ∧
       (errCat e = .read → ∃ mm, m = some mm ∧ r.isMethodRetryable mm = true)) := by
@@ -177,7 +232,7 @@ theorem increment_ok {r : Retry} {m : Option Str} {ev : Event} {r' : Retry}
         · cases h
         · obtain ⟨rfl, hex⟩ := finish_ok h
           refine ⟨by simp [new], hex, new_sameConfig .., ?_, ⟨_, new_history ..⟩, ?_⟩
-          · intro c; cases c <;> simp [counter, new, Event.cat, errCat, hc]
+          · intro c; cases c <;> first | (simp [counter, new, Event.cat, errCat, hc]; done) | exact ⟨fun _ => new_redirect_dec .., fun h => absurd rfl h⟩ | exact ⟨by simp [counter, new, Event.cat, errCat, hc], fun _ => new_redirect_budget ..⟩
           · intro e' he; cases he
             exact ⟨htot, by simp [errCat, hc]⟩
       · simp only [hc] at h
@@ -188,7 +243,7 @@ theorem increment_ok {r : Retry} {m : Option Str} {ev : Event} {r' : Retry}
           · rename_i hg
             obtain ⟨rfl, hex⟩ := finish_ok h
             refine ⟨by simp [new], hex, new_sameConfig .., ?_, ⟨_, new_history ..⟩, ?_⟩
-            · intro c; cases c <;> simp [counter, new, Event.cat, errCat, hc, hr]
+            · intro c; cases c <;> first | (simp [counter, new, Event.cat, errCat, hc, hr]; done) | exact ⟨fun _ => new_redirect_dec .., fun h => absurd rfl h⟩ | exact ⟨by simp [counter, new, Event.cat, errCat, hc, hr], fun _ => new_redirect_budget ..⟩
             · intro e' he; cases he
               refine ⟨htot, fun _ => ?_⟩
               cases m with
@@ -197,30 +252,62 @@ theorem increment_ok {r : Retry} {m : Option Str} {ev : Event} {r' : Retry}
         · simp only [hr, Bool.false_eq_true, if_false] at h
           obtain ⟨rfl, hex⟩ := finish_ok h
           refine ⟨by simp [new], hex, new_sameConfig .., ?_, ⟨_, new_history ..⟩, ?_⟩
-          · intro c; cases c <;> simp [counter, new, Event.cat, errCat, hc, hr]
+          · intro c; cases c <;> first | (simp [counter, new, Event.cat, errCat, hc, hr]; done) | exact ⟨fun _ => new_redirect_dec .., fun h => absurd rfl h⟩ | exact ⟨by simp [counter, new, Event.cat, errCat, hc, hr], fun _ => new_redirect_budget ..⟩
           · intro e' he; cases he
             exact ⟨htot, by simp [errCat, hc, hr]⟩
   | redirect st =>
     simp only at h
     obtain ⟨rfl, hex⟩ := finish_ok h
     refine ⟨by simp [new], hex, new_sameConfig .., ?_, ⟨_, new_history ..⟩, by intro e he; cases he⟩
-    intro c; cases c <;> simp [counter, new, Event.cat]
+    intro c; cases c <;> first | (simp [counter, new, Event.cat]; done) | exact ⟨fun _ => new_redirect_dec .., fun h => absurd rfl h⟩ | exact ⟨by simp [counter, new, Event.cat], fun _ => new_redirect_budget ..⟩
   | status st =>
     simp only at h
     split at h
     · rename_i hst
       obtain ⟨rfl, hex⟩ := finish_ok h
       refine ⟨by simp [new], hex, new_sameConfig .., ?_, ⟨_, new_history ..⟩, by intro e he; cases he⟩
-      intro c; cases c <;> simp [counter, new, Event.cat, hst]
+      intro c; cases c <;> first | (simp [counter, new, Event.cat, hst]; done) | exact ⟨fun _ => new_redirect_dec .., fun h => absurd rfl h⟩ | exact ⟨by simp [counter, new, Event.cat, hst], fun _ => new_redirect_budget ..⟩
     · rename_i hst
       obtain ⟨rfl, hex⟩ := finish_ok h
       refine ⟨by simp [new], hex, new_sameConfig .., ?_, ⟨_, new_history ..⟩, by intro e he; cases he⟩
-      intro c; cases c <;> simp [counter, new, Event.cat, hst]
+      intro c; cases c <;> first | (simp [counter, new, Event.cat, hst]; done) | exact ⟨fun _ => new_redirect_dec .., fun h => absurd rfl h⟩ | exact ⟨by simp [counter, new, Event.cat, hst], fun _ => new_redirect_budget ..⟩
   | nothing =>
     simp only at h
     obtain ⟨rfl, hex⟩ := finish_ok h
     refine ⟨by simp [new], hex, new_sameConfig .., ?_, ⟨_, new_history ..⟩, by intro e he; cases he⟩
-    intro c; cases c <;> simp [counter, new, Event.cat]
+    intro c; cases c <;> first | (simp [counter, new, Event.cat]; done) | exact ⟨fun _ => new_redirect_dec .., fun h => absurd rfl h⟩ | exact ⟨by simp [counter, new, Event.cat], fun _ => new_redirect_budget ..⟩
+
+/-- whatever `increment` returns was built by `new` -/
+theorem increment_ok_new {r : Retry} {m : Option Str} {ev : Event} {r' : Retry}
+    (h : r.increment m ev = .ok r') : ∃ t c rd rdr s o hs, r' = r.new t c rd rdr s o hs := by
+  unfold increment at h
+  cases ev with
+  | error e =>
+    simp only at h
+    split at h
+    · cases h
+    · split at h
+      · split at h
+        · cases h
+        · exact ⟨_, _, _, _, _, _, _, (finish_ok h).1⟩
+      · split at h
+        · split at h
+          · cases h
+          · exact ⟨_, _, _, _, _, _, _, (finish_ok h).1⟩
+        · exact ⟨_, _, _, _, _, _, _, (finish_ok h).1⟩
+  | redirect st => simp only at h; exact ⟨_, _, _, _, _, _, _, (finish_ok h).1⟩
+  | status st =>
+    simp only at h
+    split at h
+    · exact ⟨_, _, _, _, _, _, _, (finish_ok h).1⟩
+    · exact ⟨_, _, _, _, _, _, _, (finish_ok h).1⟩
+  | nothing => simp only at h; exact ⟨_, _, _, _, _, _, _, (finish_ok h).1⟩
+
+/-- `raise_on_redirect` is never switched on by `increment` -/
+theorem increment_raiseOnRedirect {r : Retry} {m : Option Str} {ev : Event} {r' : Retry}
+    (h : r.increment m ev = .ok r') (hr : r'.raiseOnRedirect = true) : r.raiseOnRedirect = true := by
+  obtain ⟨t, c, rd, rdr, s, o, hs, rfl⟩ := increment_ok_new h
+  exact new_raiseOnRedirect _ _ _ _ _ _ _ _ hr
 
 /-- what `increment` raises: the error itself, or `MaxRetryError` whose reason is the error / the
 `ResponseError` for the response it was given -/
@@ -260,108 +347,197 @@ end Retry
 
 /-! ### the `urlopen` loop in normal form -/
 
-/-- what `urlopen` hands to `increment` after the attempt -/
-def eventOf (cfg : Cfg) : Outcome → Event
-  | .response st _ => .status st
-  | o => .error (translate cfg o)
-
+/-- the reply of an attempt as `Retry` sees it -/
 def respOf : Outcome → Option Resp
   | .response st ra => some ⟨st, ra⟩
+  | .located st ra => some ⟨st, ra⟩
   | _ => none
 
-/-- does `urlopen` ask `Retry` for another attempt (always after an error; after a response only
-when `is_retry` says so) -/
-def wants (r : Retry) (m : Str) : Outcome → Bool
-  | .response st ra => r.isRetry m st ra.isSome
-  | _ => true
+/-- what `urlopen` hands to `increment` after the attempt (`increment` asks the response itself
+whether it is a redirect — the `redirect=` argument of `urlopen` plays no role here) -/
+def eventOf (cfg : Cfg) (o : Outcome) : Event :=
+  match respOf o with
+  | some rs => if o.redirectLocation then .redirect rs.status else .status rs.status
+  | none => .error (translate cfg o)
+
+/-- `redirect and response.get_redirect_location()`: the pool-level redirect branch is taken -/
+def follows (redirect : Bool) (o : Outcome) : Bool := redirect && o.redirectLocation
+
+/-- does `urlopen` ask `Retry` for another attempt (always after an error; after a reply when the
+redirect branch is taken or `is_retry` says so) -/
+def wants (r : Retry) (redirect : Bool) (m : Str) (o : Outcome) : Bool :=
+  follows redirect o ||
+    match respOf o with
+    | some rs => r.isRetry m rs.status rs.retryAfter.isSome
+    | none => true
+
+/-- the request of the next `urlopen` entry -/
+def nextRq (redirect : Bool) (q : Rq) (i : Nat) (o : Outcome) : Rq :=
+  match respOf o with
+  | some rs => if follows redirect o then redirected q i rs.status else q
+  | none => q
+
+/-- the `time.sleep` between this attempt and the next: `sleep_for_retry` in the redirect branch,
+`sleep(response)` / `sleep()` otherwise -/
+def stepSleep (redirect : Bool) (r' : Retry) (o : Outcome) : Option Int :=
+  match respOf o with
+  | some rs => if follows redirect o then Retry.sleepForRetry rs else r'.sleep (some rs)
+  | none => r'.sleep none
 
 /-- the counter an attempt is charged to by the code -/
 def chargedTo (cfg : Cfg) (o : Outcome) : Option Cat := (eventOf cfg o).cat
 
-/-- what `urlopen` does with an exception from `increment` -/
-def stopResult (r : Retry) (o : Outcome) : Raise → Result
+/-- what `urlopen` does with an exception from `increment` (attempt number `i`) -/
+def stopResult (r : Retry) (redirect : Bool) (i : Nat) (o : Outcome) : Raise → Result
   | .reraise e => .reraised e
   | .maxRetry c =>
-    match o with
-    | .response st _ => if r.raiseOnStatus then .maxRetry c else .response st
-    | _ => .maxRetry c
+    match respOf o with
+    | some rs =>
+      if (if follows redirect o then r.raiseOnRedirect else r.raiseOnStatus) then .maxRetry c
+      else .response i rs.status
+    | none => .maxRetry c
 
-theorem run_unwanted {cfg : Cfg} {r : Retry} {m : Str} {o : Outcome} {rest : List Outcome}
-    (h : wants r m o = false) :
-    ∃ st ra, o = .response st ra ∧ runAttempts cfg r m (o :: rest) = .stop o (.response st) := by
-  cases o with
-  | response st ra => exact ⟨st, ra, rfl, by simp [wants] at h; simp [runAttempts, h]⟩
-  | _ => simp [wants] at h
-
-theorem run_ok {cfg : Cfg} {r r' : Retry} {m : Str} {o : Outcome} {rest : List Outcome}
-    (hw : wants r m o = true) (hi : r.increment (some m) (eventOf cfg o) = .ok r') :
-    runAttempts cfg r m (o :: rest) = .cons o (r'.sleep (respOf o)) (runAttempts cfg r' m rest) := by
-  cases o with
-  | response st ra =>
-    simp only [wants] at hw
-    simp only [eventOf] at hi
-    simp [runAttempts, hw, hi, respOf]
-  | connectError k => simp only [eventOf] at hi; simp [runAttempts, hi, respOf]
-  | readError k => simp only [eventOf] at hi; simp [runAttempts, hi, respOf]
-  | otherError => simp only [eventOf] at hi; simp [runAttempts, hi, respOf]
-
-theorem run_err {cfg : Cfg} {r : Retry} {m : Str} {o : Outcome} {rest : List Outcome} {x : Raise}
-    (hw : wants r m o = true) (hi : r.increment (some m) (eventOf cfg o) = .error x) :
-    runAttempts cfg r m (o :: rest) = .stop o (stopResult r o x) := by
-  cases o with
-  | response st ra =>
-    simp only [wants] at hw
-    simp only [eventOf] at hi
-    cases x <;> simp [runAttempts, hw, hi, stopResult] <;> split <;> rfl
-  | connectError k => simp only [eventOf] at hi; cases x <;> simp [runAttempts, hi, stopResult]
-  | readError k => simp only [eventOf] at hi; cases x <;> simp [runAttempts, hi, stopResult]
-  | otherError => simp only [eventOf] at hi; cases x <;> simp [runAttempts, hi, stopResult]
-
-theorem stopResult_ne_out (r : Retry) (o : Outcome) (x : Raise) : stopResult r o x ≠ .outOfScript := by
+theorem stopResult_ne_out (r : Retry) (rd : Bool) (i : Nat) (o : Outcome) (x : Raise) :
+    stopResult r rd i o x ≠ .outOfScript := by
   cases x with
   | reraise e => simp [stopResult]
-  | maxRetry c => cases o <;> simp [stopResult] <;> split <;> simp
+  | maxRetry c =>
+    simp only [stopResult]
+    repeat' split
+    all_goals simp
 
 /-- the three ways one attempt can end -/
-inductive StepCase (cfg : Cfg) (r : Retry) (m : Str) (o : Outcome) (rest : List Outcome) : Prop where
-  | returned (st : Nat) (ra : Option Nat) (ho : o = .response st ra) (hw : wants r m o = false)
-      (h : runAttempts cfg r m (o :: rest) = .stop o (.response st))
-  | raised (x : Raise) (hw : wants r m o = true)
-      (hi : r.increment (some m) (eventOf cfg o) = .error x)
-      (h : runAttempts cfg r m (o :: rest) = .stop o (stopResult r o x))
-  | again (r' : Retry) (hw : wants r m o = true)
-      (hi : r.increment (some m) (eventOf cfg o) = .ok r')
-      (h : runAttempts cfg r m (o :: rest) = .cons o (r'.sleep (respOf o)) (runAttempts cfg r' m rest))
+inductive StepCase (cfg : Cfg) (r : Retry) (rd : Bool) (q : Rq) (i : Nat) (o : Outcome)
+    (rest : List Outcome) : Prop where
+  | returned (st : Nat) (ra : Option Nat) (ho : respOf o = some ⟨st, ra⟩) (hw : wants r rd q.method o = false)
+      (h : runAttempts cfg r rd q i (o :: rest) = .stop q o (.response i st))
+  | raised (x : Raise) (hw : wants r rd q.method o = true)
+      (hi : r.increment (some (nextRq rd q i o).method) (eventOf cfg o) = .error x)
+      (h : runAttempts cfg r rd q i (o :: rest) = .stop q o (stopResult r rd i o x))
+  | again (r' : Retry) (hw : wants r rd q.method o = true)
+      (hi : r.increment (some (nextRq rd q i o).method) (eventOf cfg o) = .ok r')
+      (h : runAttempts cfg r rd q i (o :: rest) =
+        .cons q o (stepSleep rd r' o) (runAttempts cfg r' rd (nextRq rd q i o) (i + 1) rest))
 
-theorem run_cases (cfg : Cfg) (r : Retry) (m : Str) (o : Outcome) (rest : List Outcome) :
-    StepCase cfg r m o rest := by
-  cases hw : wants r m o with
-  | false =>
-    obtain ⟨st, ra, ho, h⟩ := run_unwanted (cfg := cfg) (rest := rest) hw
-    exact .returned st ra ho hw h
-  | true =>
-    cases hi : r.increment (some m) (eventOf cfg o) with
-    | error x => exact .raised x hw hi (run_err hw hi)
-    | ok r' => exact .again r' hw hi (run_ok hw hi)
+theorem run_response (cfg : Cfg) (r : Retry) (rd : Bool) (q : Rq) (i : Nat) (st : Nat) (ra : Option Nat)
+    (rest : List Outcome) :
+    runAttempts cfg r rd q i (.response st ra :: rest) =
+      onReply r rd q i (.response st ra) st ra (fun r' q' => runAttempts cfg r' rd q' (i + 1) rest) := by
+  simp only [runAttempts]
 
-theorem run_attempts_ne_nil (cfg : Cfg) (r : Retry) (m : Str) (script : List Outcome)
-    (h : (runAttempts cfg r m script).result ≠ .outOfScript) :
-    (runAttempts cfg r m script).attempts ≠ [] := by
+theorem run_located (cfg : Cfg) (r : Retry) (rd : Bool) (q : Rq) (i : Nat) (st : Nat) (ra : Option Nat)
+    (rest : List Outcome) :
+    runAttempts cfg r rd q i (.located st ra :: rest) =
+      onReply r rd q i (.located st ra) st ra (fun r' q' => runAttempts cfg r' rd q' (i + 1) rest) := by
+  simp only [runAttempts]
+
+/-- `onReply` in normal form -/
+theorem replyStep_cases (cfg : Cfg) (r : Retry) (rd : Bool) (q : Rq) (i : Nat) (o : Outcome)
+    (rest : List Outcome) (st : Nat) (ra : Option Nat) (ho : respOf o = some ⟨st, ra⟩)
+    (hrun : runAttempts cfg r rd q i (o :: rest) =
+      onReply r rd q i o st ra (fun r' q' => runAttempts cfg r' rd q' (i + 1) rest)) :
+    StepCase cfg r rd q i o rest := by
+  by_cases hf : follows rd o = true
+  · have hw : wants r rd q.method o = true := by simp [wants, hf]
+    have hq : nextRq rd q i o = redirected q i st := by simp [nextRq, ho, hf]
+    have he : eventOf cfg o = .redirect st := by
+      have : o.redirectLocation = true := by simp [follows] at hf; exact hf.2
+      simp [eventOf, ho, this]
+    have hf' : (rd && o.redirectLocation) = true := hf
+    cases hi : r.increment (some (redirected q i st).method) (.redirect st) with
+    | error x =>
+      refine .raised x hw (by rw [hq, he]; exact hi) ?_
+      rw [hrun]
+      cases x with
+      | reraise e => simp [onReply, hf', hi, stopResult]
+      | maxRetry c =>
+        simp only [onReply, hf', hi, stopResult, ho, hf, if_true]
+        by_cases hror : r.raiseOnRedirect = true <;> simp [hror]
+    | ok r' =>
+      refine .again r' hw (by rw [hq, he]; exact hi) ?_
+      rw [hrun, hq]
+      simp [onReply, hf', hi, stepSleep, ho, hf]
+  · have hf' : (rd && o.redirectLocation) = false := by simpa [follows] using hf
+    have hfF : follows rd o = false := by simpa using hf
+    have hq : nextRq rd q i o = q := by simp [nextRq, ho, hfF]
+    have he : eventOf cfg o = (if o.redirectLocation then .redirect st else .status st) := by
+      simp [eventOf, ho]
+    cases hr : r.isRetry q.method st ra.isSome with
+    | false =>
+      have hw : wants r rd q.method o = false := by simp [wants, hfF, ho, hr]
+      exact .returned st ra ho hw (by rw [hrun]; simp [onReply, hf', hr])
+    | true =>
+      have hw : wants r rd q.method o = true := by simp [wants, ho, hr]
+      cases hi : r.increment (some q.method) (if o.redirectLocation then .redirect st else .status st) with
+      | error x =>
+        refine .raised x hw (by rw [hq, he]; exact hi) ?_
+        rw [hrun]
+        cases x with
+        | reraise e => simp [onReply, hf', hr, hi, stopResult]
+        | maxRetry c =>
+          simp only [onReply, hf', hr, hi, stopResult, ho, hfF, if_true]
+          by_cases hros : r.raiseOnStatus = true <;> simp [hros]
+      | ok r' =>
+        refine .again r' hw (by rw [hq, he]; exact hi) ?_
+        rw [hrun, hq]
+        simp [onReply, hf', hr, hi, stepSleep, ho, hfF]
+
+theorem run_error_cases (cfg : Cfg) (r : Retry) (rd : Bool) (q : Rq) (i : Nat) (o : Outcome)
+    (rest : List Outcome) (ho : respOf o = none)
+    (hrun : runAttempts cfg r rd q i (o :: rest) =
+      onError r q o (translate cfg o) (fun r' q' => runAttempts cfg r' rd q' (i + 1) rest)) :
+    StepCase cfg r rd q i o rest := by
+  have hw : wants r rd q.method o = true := by simp [wants, ho]
+  have hq : nextRq rd q i o = q := by simp [nextRq, ho]
+  have he : eventOf cfg o = .error (translate cfg o) := by simp [eventOf, ho]
+  cases hi : r.increment (some q.method) (.error (translate cfg o)) with
+  | error x =>
+    refine .raised x hw (by rw [hq, he]; exact hi) ?_
+    rw [hrun]
+    cases x <;> simp [onError, hi, stopResult, ho]
+  | ok r' =>
+    refine .again r' hw (by rw [hq, he]; exact hi) ?_
+    rw [hrun, hq]
+    simp [onError, hi, stepSleep, ho]
+
+theorem run_cases (cfg : Cfg) (r : Retry) (rd : Bool) (q : Rq) (i : Nat) (o : Outcome) (rest : List Outcome) :
+    StepCase cfg r rd q i o rest := by
+  cases o with
+  | response st ra => exact replyStep_cases cfg r rd q i _ rest st ra rfl (run_response ..)
+  | located st ra => exact replyStep_cases cfg r rd q i _ rest st ra rfl (run_located ..)
+  | connectError k => exact run_error_cases cfg r rd q i _ rest rfl (by simp only [runAttempts])
+  | readError k => exact run_error_cases cfg r rd q i _ rest rfl (by simp only [runAttempts])
+  | otherError => exact run_error_cases cfg r rd q i _ rest rfl (by simp only [runAttempts])
+
+theorem run_attempts_ne_nil (cfg : Cfg) (r : Retry) (rd : Bool) (q : Rq) (i : Nat) (script : List Outcome)
+    (h : (runAttempts cfg r rd q i script).result ≠ .outOfScript) :
+    (runAttempts cfg r rd q i script).attempts ≠ [] := by
   cases script with
   | nil => simp [runAttempts] at h
   | cons o rest =>
-    cases run_cases cfg r m o rest with
+    cases run_cases cfg r rd q i o rest with
     | returned st ra ho hw hr => simp [hr, Run.stop]
     | raised x hw hi hr => simp [hr, Run.stop]
     | again r' hw hi hr => simp [hr, Run.cons]
 
-theorem retried_stop (o : Outcome) (res : Result) (h : res ≠ .outOfScript) :
-    (Run.stop o res).retried = [] := by
+/-- the first attempt of a call is the request the call was entered with -/
+theorem run_head_rq (cfg : Cfg) (r : Retry) (rd : Bool) (q : Rq) (i : Nat) (script : List Outcome)
+    (a : Attempt) (h : (runAttempts cfg r rd q i script).attempts[0]? = some a) : a.rq = q := by
+  cases script with
+  | nil => simp [runAttempts] at h
+  | cons o rest =>
+    cases run_cases cfg r rd q i o rest with
+    | returned st ra ho hw hr => rw [hr] at h; simp [Run.stop] at h; rw [← h]
+    | raised x hw hi hr => rw [hr] at h; simp [Run.stop] at h; rw [← h]
+    | again r' hw hi hr => rw [hr] at h; simp [Run.cons] at h; rw [← h]
+
+theorem retried_stop (q : Rq) (o : Outcome) (res : Result) (h : res ≠ .outOfScript) :
+    (Run.stop q o res).retried = [] := by
   simp [Run.retried, Run.stop, h]
 
-theorem retried_cons (o : Outcome) (s : Option Int) (x : Run)
+theorem retried_cons (q : Rq) (o : Outcome) (s : Option Int) (x : Run)
     (h : x.result ≠ .outOfScript → x.attempts ≠ []) :
-    (Run.cons o s x).retried = ⟨o, s⟩ :: x.retried := by
+    (Run.cons q o s x).retried = ⟨q, o, s⟩ :: x.retried := by
   unfold Run.retried Run.cons
   by_cases hr : x.result = .outOfScript
   · simp [hr]
@@ -436,10 +612,14 @@ theorem sleep_bound {r : Retry} {resp : Option Resp} {t : Int} (h : r.sleep resp
 def POST : Str := [80, 79, 83, 84]
 def GET : Str := [71, 69, 84]
 
-/-- the request may have reached the server: a read error or a response -/
-def reachedServer : Outcome → Bool
+/-- the request may have reached the server and the attempt did not end in a redirect that
+`urlopen` follows (a followed redirect is a new request by design): a read error, or a reply outside
+the redirect branch -/
+def reachedServer (redirect : Bool) (o : Outcome) : Bool :=
+  match o with
   | .readError _ => true
   | .response _ _ => true
+  | .located _ _ => !follows redirect o
   | _ => false
 
 end U3.Retry
